@@ -129,7 +129,8 @@ def plans():
     for name in ('valued', 'reals', 'keywords', 'assoc_reflexive', 'reflexive_1m', 'grid', 'phrase_ends', 'mixed_case'):
         ps.append({'name': name + '_values', 'schema': name, 'model': False, 'bound': 3, 'decorate': decorate,
                    'obs': obs, 'random': value_runs})
-    for name in ('grid', 'many_one_2key', 'one_many', 'assoc_class', 'shared_ref', 'reflexive_11', 'subsuper', 'phrase_ends'):
+    for name in ('grid', 'many_one_2key', 'one_many', 'assoc_class', 'shared_ref', 'reflexive_11', 'subsuper', 'phrase_ends',
+                 'two_identifiers'):
         ps.append({'name': name + '_loaded', 'schema': name, 'model': False, 'bound': 4, 'decorate': decorate,
                    'obs': obs, 'random': loaded_runs})
     ps.append({'name': 'plain2_instances_only', 'schema': 'plain2', 'model': False, 'bound': 3, 'decorate': decorate_io,
